@@ -890,3 +890,16 @@ def desc_item_hook(eng, what, payload, st):
 
 
 REG.attr_hooks.insert(0, desc_item_hook)
+
+
+# ---------------------------------------------------------------------- equality of expressions is textual
+# The executor's `==` on published expressions (list.index / list.remove / `in`) is textual equality; these contracts
+# check that assumption against the real TexExpr.__eq__ (C05, C15, C18 and the lookups of delete/replace depend on it).
+REG.add(Contract(
+    'data.TexExpr.__eq__', case='expr', types={'self': 'E', 'other': 'E'}, result='bool', props=['C05', 'C15', 'C18', 'C14'],
+    requires=[A('not-a-text-leaf', 'kind(self) != K("TexText")')],
+    ensures=[P(['C05', 'C15', 'C18'], 'equality-is-equality-of-the-texts', 'result == (ser(self) == ser(other))')]))
+REG.add(Contract(
+    'data.TexExpr.__eq__', case='str', types={'self': 'E', 'other': 'str'}, result='bool', props=['C05', 'C15', 'C18', 'C14'],
+    requires=[A('not-a-text-leaf', 'kind(self) != K("TexText")')],
+    ensures=[P(['C05', 'C15', 'C18'], 'equality-is-equality-of-the-texts', 'result == (ser(self) == other)')]))
